@@ -102,6 +102,16 @@ func c12Check(cs vshCase, d *vshDesc) []vshFinding { //nolint:gocognit,cyclop
 		if len(dirs) != 1 || dirs[0] != t.Dir {
 			add(fmt.Sprintf("section-direction-differs|transceiver=%s|section=%s", t.Dir, strings.Join(dirs, "+")), fmt.Sprintf("m-section %d (mid %q) has direction attributes %v, the transceiver's direction is %s", si, t.Mid, dirs, t.Dir))
 		}
+		// a ReplaceTrack that returned nil took effect (the harness's own record of the call, not the sender's)
+		if t.HasSender && t.ModelSet {
+			got := ""
+			if t.HasTrack {
+				got = t.StreamID + " " + t.TrackID
+			}
+			if got != t.ModelMsid {
+				add("replace-track-not-in-effect", fmt.Sprintf("ReplaceTrack returned nil for track %q on the sender of transceiver %d, but the sender holds %q", t.ModelMsid, ti, got))
+			}
+		}
 		if !t.HasSender || !t.HasTrack || (t.Dir != "sendrecv" && t.Dir != "sendonly") {
 			continue
 		}
